@@ -41,7 +41,10 @@ ASSUMPTIONS = [
     "data types of the judged decodings: fixed-width integers / reals, n_bytes(k >= 1), STRING / SHORT_STRING with their full announced "
     "length present, fixed arrays of integers / reals, and structs of those; the correspondence covers the codec model's type grammar (without StructTag/FixedSizeString/"
     "greedy arrays)",
-    "get_plc_time: only value['microseconds'] (and the datetime arithmetic overflow) is modelled; set_plc_time(None) (PC clock) is not",
+    "get_plc_time: value['microseconds'] and whether value['datetime'] / value['string'] are present (None beyond datetime.max) are "
+    "modelled, not their renderings; set_plc_time(None) (PC clock) is not",
+    "an Unconnected Send asked for without a route (route_path False / [] / b'') is expected with an EMPTY route path (former finding, "
+    "repaired in /repo 960b320)",
     "the reference target (Spec/TargetCore.v basic_handler): scratch objects 0x300..0x3FF echo services 0x4B..0x4F and store attributes; "
     "wall-clock attributes 6 and 11 are views of one microsecond counter",
 ]
@@ -315,7 +318,9 @@ class Env:
 
 
 def finding_class(c, scen):
-    """the KNOWN input classes on which the statement fails (narrow: call site + input class), or None"""
+    """input classes of the findings repaired in /repo (1007c7c, 960b320): a failure there is named after them"""
+    if c["mode"] == "ucmm" and c["route"][0] == "true":
+        return "generic_message:ucmm-default-route"
     if c["mode"] == "ucsend" and (c["route"][0] in ("false", "empty") or c["route"] == ["bytes", ""]):
         return "generic_message:ucsend-no-route"
     return None
@@ -357,6 +362,8 @@ def run_case(env, drv, scen, c, where="gen"):
             want_route = spec_route(scen["hops"])
         elif hops is not None:
             want_route = spec_route(hops)
+        elif c["route"][0] in ("false", "empty") or c["route"] == ["bytes", ""]:
+            want_route = b""                                   # no route = an empty route path
     env.set_expect(want_route if (c["mode"] == "ucsend" and want_route is not None and c.get("expect")) else None)
     inj = c.get("inject")
     if inj:
@@ -456,16 +463,8 @@ def run_case(env, drv, scen, c, where="gen"):
             R.disagree("Spec/GenericSpec.spec_extract vs the live target's log", desc, spec_seen, live)
     fcls = finding_class(c, scen)
     if not ok:
-        cls = "generic_message:" + c["mode"]
-        if c["mode"] == "ucmm" and c["route"][0] == "true":
-            cls = "generic_message:ucmm-default-route"          # repaired in /repo 1007c7c: must not come back
-        if fcls == "generic_message:ucsend-no-route":
-            mal = [e for e in events if e["ev"] == "malformed"]
-            exact = seen is not None and seen["transport"] == "ucmm" and seen["service"] == 0x52 and mal and mal[0]["why"] == 15
-            cls = fcls if exact else fcls + ":other"
-        fail(R, "the target did not receive exactly the request the caller gave", desc, seen if seen is not None else events[:6], asked, cls)
-    elif fcls is not None:
-        R.notes.append(f"known finding class {fcls} did not reproduce on {c}") if len(R.notes) < 5 else None
+        fail(R, "the target did not receive exactly the request the caller gave", desc, seen if seen is not None else events[:6], asked,
+             fcls or ("generic_message:" + c["mode"]))
     # ---- oracle 2: the Tag == the target's answer
     if len(got) != 1:
         return
@@ -844,7 +843,7 @@ def canon_model_helper(ans):
         return ("val", cc.parse_val_tokens(ans, 1)[0])
     if k == "time":
         us = None if isinstance(ans[1], fw.Sym) else ans[1]
-        return ("time", us, canon_gerr_tokens(ans, 2)[0])
+        return ("time", us, bool(ans[2]), canon_gerr_tokens(ans, 3)[0])
     if k == "tag":
         return canon_model_tag(ans)
     return ("?", [str(x) for x in ans])
@@ -855,7 +854,10 @@ def canon_impl_helper(hname, res, exc):
     if exc is not None:
         return ("exc", exc_code(exc))
     if hname == "get_plc_time":
-        return ("time", None if res.value is None else res.value["microseconds"], canon_err_text(res.error))
+        if res.value is None:
+            return ("time", None, False, canon_err_text(res.error))
+        both = (res.value["datetime"] is not None, res.value["string"] is not None)
+        return ("time", res.value["microseconds"], both[0] if both[0] == both[1] else ("mixed", both), canon_err_text(res.error))
     if hname == "set_plc_time":
         return canon_impl_tag(res, None)
     return ("val", cc.canon(res))
@@ -947,7 +949,7 @@ def run_helpers(env, rng, thorough):
             if not good:
                 fail(R, "the time written with set_plc_time is not the time get_plc_time reports", {"scenario": scen, "us": t},
                        repr(res if exc is None else exc), t,
-                       "get_plc_time:beyond-datetime-max" if (t > DATETIME_MAX_US and isinstance(exc, OverflowError)) else "time_roundtrip")
+                       "get_plc_time:beyond-datetime-max" if t > DATETIME_MAX_US else "time_roundtrip")
         tp.inject(0, 3, 0x08)
         res, exc, sent, got, ev = helper_corr(env, drv, scen, "get_plc_time", ["gettime"], drv.get_plc_time)
         if exc is not None or res or not res.error:
